@@ -6,6 +6,7 @@ import (
 	"sync/atomic"
 
 	"github.com/openfga/openfga/internal/listobjects/pipeline/internal/track"
+	"github.com/openfga/openfga/internal/verifhook"
 )
 
 // Membership represents a worker's participation in a [CycleGroup].
@@ -48,6 +49,7 @@ func (m *Membership) IsLeader() bool {
 // SignalReady indicates that this member's non-cyclical inputs are exhausted.
 func (m *Membership) SignalReady() {
 	m.reporter.Report()
+	verifhook.Yield("cycle.signalReady.reported")
 	m.reporter.Dec()
 }
 
@@ -55,6 +57,7 @@ func (m *Membership) SignalReady() {
 // and the in-flight message count has reached zero. It returns false if ctx
 // is cancelled first.
 func (m *Membership) WaitForAllReady(ctx context.Context) bool {
+	verifhook.Yield("cycle.beforeWait")
 	return m.reporter.Wait(ctx)
 }
 
@@ -70,7 +73,9 @@ func (m *Membership) Sleep(ctx context.Context) {
 // Wake unblocks a pending Sleep call. It is safe to call multiple times;
 // only the first call has any effect.
 func (m *Membership) Wake() {
+	verifhook.Yield("cycle.beforeWake")
 	if !m.awake.Swap(true) {
+		verifhook.Event("cycle.wake", m.reporter, m.label)
 		close(m.wake)
 	}
 }
@@ -78,10 +83,12 @@ func (m *Membership) Wake() {
 // Inc increments the group's in-flight message count.
 func (m *Membership) Inc() {
 	m.reporter.Inc()
+	verifhook.Yield("cycle.inc.done")
 }
 
 // Dec decrements the group's in-flight message count.
 func (m *Membership) Dec() {
+	verifhook.Yield("cycle.beforeDec")
 	m.reporter.Dec()
 }
 
@@ -147,5 +154,6 @@ func (g *CycleGroup) Join(label string) *Membership {
 	// by SignalReady once the member's non-cyclical inputs are exhausted,
 	// preventing the pool from reaching quiescence prematurely.
 	m.reporter.Inc()
+	verifhook.Event("cycle.join", g.statusPool, reporter, label)
 	return &m
 }
